@@ -52,9 +52,16 @@ class FakeConn(object):
 
     def request(self, method, path, body, headers):
         self.requests.append((method, path, body, dict(headers)))
+        if self.fail_next_request is not None:
+            e, self.fail_next_request = self.fail_next_request, None
+            raise e
+
+    fail_next_request = None
 
     def getresponse(self):
         r = self.replies.popleft()
+        if isinstance(r, BaseException):
+            raise r
         if callable(r):
             r = r(self.requests[-1])
         if r is None:
@@ -114,7 +121,7 @@ class C19(Prop):
         'amount_in_exact', 'amount_in_exact_int', 'hex_transport', 'transport_de', 'b2lx_is_core_form',
         'hash_roundtrip_bytes', 'hash_roundtrip_text', 'hash_roundtrip', 'lx_accepts', 'error_reply_raises',
         'class_of_int_code', 'class_of_registered', 'class_of_odd_codes', 'no_result_without_result',
-        'method_error_never_result', 'ids_gt_counter', 'ids_strictly_increase', 'ids_of_calls', 'amount_out_exact_partial',
+        'method_error_never_result', 'ids_gt_counter', 'ids_strictly_increase', 'ids_of_calls', 'ids_independent_of_fate', 'amount_out_exact_partial',
         'unhashable_code_raises', 'non_reply_outcomes', 'amount_in_outcomes', 'amount_special_values',
         'satoshis_denoted_sound', 'satoshis_denoted_complete', 'numeral_denotes_iff')]
     anchors = [('bitcoin/rpc.py', 'JSONRPCError.__new__'), ('bitcoin/rpc.py', 'BaseProxy._call'),
@@ -144,7 +151,13 @@ class C19(Prop):
                    'Infinity/null where an amount is expected (ValueError/OverflowError/TypeError), are not "error '
                    'replies": the model carries what the code does today as explicit outcomes and the run compares '
                    'them strictly, but the property does not constrain them',
-                   'the decimal context is the default one (28 digits); int(r*COIN) uses the thread\'s ambient context']
+                   'the decimal context is the default one (28 digits); int(r*COIN) uses the thread\'s ambient context',
+                   'typed Proxy methods: conversion of non-error results is modelled only for amounts (amountIn), '
+                   'hashes (chain) and gettxout\'s IndexError on a null result; what e.g. getblock does with a null or '
+                   'malformed result (AttributeError / binascii.Error of the conversion) is not an error reply and '
+                   'is not modelled',
+                   'on every amount text (inside or outside the domain) the model\'s answer is additionally required '
+                   'to equal CPython\'s int(json.loads(text, parse_float=Decimal) * COIN) computed by the harness']
     level = 'proof'
     rule = ('amounts 0, 1, 10^8±1, 21·10^14 and neighbours, d·10^j for every digit d and position j, digit-pattern '
             'amounts, random amounts in the money range — received through every amount-carrying Proxy method in '
@@ -260,7 +273,13 @@ class C19(Prop):
                    '9999999999999999999.9999999995', '1e-9', '9e-9', '5e-9', '1e-30', '1e-1000', '1e-999999',
                    '1e20', '1e999992', '9.99e999992', '1e1000000', '0e5', '0.0e-5', '-0.0', '-0', '0E+999999',
                    '1.5E+3', '2.5e0', '1E0', '1e+2', '12345678901234567890123456789012345', '-1e-9', '-0.999999999',
-                   '1' + '0' * 40, '0.5', '123.456', '100000000', '0.00000000', '1e8', '1E-8']
+                   '1' + '0' * 40, '0.5',
+                   # CPython's numeral limits: int() digit limit, Decimal exponent limits (json.loads itself raises)
+                   '1' * 4200, '1' * 4301, '-' + '1' * 4301, '9' * 4000 + '.0', '1e1000000000000000000',
+                   '1e999999999999999999', '10e999999999999999999', '0.1e1000000000000000000',
+                   '1e-1999999999999999997', '1e-1999999999999999998', '1.0e-1999999999999999997',
+                   '123e-1999999999999999999', '0e1000000000000000000', '0e999999999999999999',
+                   '1e-1000000000000000000000', '1e1000000000000000000000', '0.0e-1999999999999999996', '123.456', '100000000', '0.00000000', '1e8', '1E-8']
         inexact += ['%d.%s' % (srng.randrange(0, 10 ** srng.choice([1, 8, 20])),
                                 ''.join(srng.choice('0123456789') for _ in range(srng.choice([1, 7, 9, 12, 28, 40]))))
                     for _ in range(2000 if big else 200)]
@@ -321,7 +340,8 @@ class C19(Prop):
         code_specs = ['int=%d' % c for c in sorted(codes)]
         code_specs += ['dec=' + t for c in sorted(set(SPEC_CODES) | set(tree_codes)) for t in
                        ('%d.0' % c, '%d.00' % c, '%de-1' % (c * 10), '%d.5' % c, '%dE0' % c, '%d.0000000001' % c)]
-        code_specs += ['empty', 'dec=-0.5e1', 'dec=1e2', 'dec=0.0', 'dec=-0.0', 'dec=1.0', 'absent', 'true', 'false', 'null', 'str']
+        code_specs += ['empty', 'dec=-0.5e1', 'dec=1e2', 'dec=0.0', 'dec=-0.0', 'dec=1.0', 'absent', 'true', 'false', 'null', 'str',
+                       'nan', 'inf', '-inf']
         methods = ['call', 'raw', 'getblockhash', 'getblock', 'getblockheader', 'getrawtransaction', 'gettransaction',
                    'getbalance', 'getbestblockhash', 'sendrawtransaction', 'gettxout', 'listunspent', 'getblockcount',
                    'sendtoaddress', 'submitblock', 'getrawmempool']
@@ -359,6 +379,11 @@ class C19(Prop):
                 for res in ('absent', 'v=ignored'):
                     if mine():
                         yield mk('c19.reply', m, 'obj:dict=unhashable=%d:%s' % (j, res), tag='reply-unhashable-code')
+        # typed methods that hand a null result through (gettxout: its documented IndexError)
+        for m in ('gettxout', 'getblockcount', 'gettransaction', 'submitblock'):
+            for e in ('absent', 'null'):
+                if mine():
+                    yield mk('c19.reply', m, 'obj:%s:v=@null' % e, tag='reply-null-result')
         for m in ('call', 'raw'):
             for e in ('absent', 'null'):
                 for v in ('abc', '@null', '', 'x y'):
@@ -366,7 +391,7 @@ class C19(Prop):
                         yield mk('c19.reply', m, 'obj:%s:v=%s' % (e, v), tag='reply-result')
 
         # (f) id sequences
-        toks = ['ok', 'err', 'bad', 'none', 'miss', 'batch']
+        toks = ['ok', 'err', 'bad', 'none', 'miss', 'batch', 'nonutf8', 'nonobj', 'connfail', 'reqfail']
         for n in range(2000 if big else 40):
             hist = [srng.choice(toks) for _ in range(srng.choice([1, 2, 50, 50, 50, 120]))]
             if mine():
@@ -531,6 +556,8 @@ class C19(Prop):
                 inner.append('"code": %s' % c[4:])
             elif c in ('true', 'false', 'null'):
                 inner.append('"code": %s' % c)
+            elif c in ('nan', 'inf', '-inf'):
+                inner.append('"code": %s' % {'nan': 'NaN', 'inf': 'Infinity', '-inf': '-Infinity'}[c])
             elif c == 'str':
                 inner.append('"code": "-5"')
             elif c.startswith('unhashable='):
@@ -573,6 +600,8 @@ class C19(Prop):
                 cs = str(code)
             elif isinstance(code, Decimal):
                 cs = 'dec'
+            elif isinstance(code, float):
+                cs = 'float'
             elif code is None:
                 cs = 'null'
             elif isinstance(code, (list, dict)):
@@ -589,11 +618,15 @@ class C19(Prop):
                 conn.script(b'[]')
                 p._batch([{'version': '1.1', 'method': 'm', 'params': [], 'id': 7}])
                 continue
-            conn.script({'ok': ok_reply('1'), 'err': ERR_REPLY, 'bad': (b'<html>', 502, 'Bad Gateway'), 'none': None,
-                         'miss': b'{"id": 1}'}[t])
+            if t == 'reqfail':
+                conn.fail_next_request = TimeoutError('scripted')
+            else:
+                conn.script({'ok': ok_reply('1'), 'err': ERR_REPLY, 'bad': (b'<html>', 502, 'Bad Gateway'),
+                             'none': None, 'miss': b'{"id": 1}', 'nonutf8': b'\xff\xfe', 'nonobj': b'[]',
+                             'connfail': ConnectionResetError('scripted')}[t])
             try:
                 p.call('m', len(conn.requests))
-            except self.R.JSONRPCError:
+            except (self.R.JSONRPCError, UnicodeDecodeError, AttributeError, ConnectionResetError, TimeoutError):
                 pass
         out = []
         for (_, _, body, _) in conn.requests:
@@ -660,23 +693,45 @@ class C19(Prop):
             # a string that is not hex is not a hash: only "refused" is compared, not the exception class
             return io.startswith('err:') and mo.startswith('err:')
         if op == 'c19.amountIn':
-            # the property speaks about texts that denote whole satoshis below the context precision;
-            # elsewhere (sub-satoshi digits, astronomically large values) only "an integer next to the exact
-            # value, or refused" is required, so that a different rounding of sub-satoshi digits is no alarm
+            text = c['args'][1]
+            if text in ('NaN', 'Infinity', '-Infinity', 'null', 'true', 'false'):
+                return False                       # compared strictly (io == mo handled above)
+            # (1) the model is tied to CPython's json + decimal on EVERY text, in or out of the property's domain:
+            #     its answer must be what `int(json.loads(text, parse_float=Decimal) * COIN)` gives
+            if mo != self._ref_amount(text):
+                return False
+            # (2) the code under test: strict inside the domain (whole satoshis below the context precision) …
             try:
-                exact = Fraction(Decimal(c['args'][1])) * COIN
+                exact = Fraction(Decimal(text)) * COIN
             except Exception:  # noqa: BLE001
                 return False
-            in_domain = exact.denominator == 1 and abs(exact) < 10 ** 28
-            if in_domain:
+            if exact.denominator == 1 and abs(exact) < 10 ** 28:
                 return False
+            # … outside it the property is silent: an integer next to the exact value, or refused, is accepted,
+            # so that a different rounding of sub-satoshi digits is no alarm
             if io.startswith('err:') or mo.startswith('err:'):
-                return io.startswith('err:') and mo.startswith('err:') or abs(exact) >= 10 ** 28
+                return (io.startswith('err:') and mo.startswith('err:')) or abs(exact) >= 10 ** 28
             try:
                 return abs(int(io) - exact) < 1
             except ValueError:
                 return False
         return False
+
+    @staticmethod
+    def _ref_amount(text):
+        """CPython's own reading, computed by the harness (not by /repo): the reference the model is tied to"""
+        import decimal
+        try:
+            v = json.loads(text, parse_float=Decimal)
+        except Exception:  # noqa: BLE001  (ValueError of int(): digit limit; decimal.InvalidOperation)
+            return 'err:rpcerr'
+        try:
+            with decimal.localcontext(decimal.DefaultContext):
+                return str(int(v * COIN))
+        except decimal.Overflow:
+            return 'err:py:Overflow'
+        except Exception as e:  # noqa: BLE001
+            return 'err:py:' + type(e).__name__
 
     def nontrivial(self, c, io):
         a = c['args']
